@@ -109,7 +109,17 @@ func (ds *dataStore) copyStoreKeyUnlocked(srcKeyName, destKeyName string, dds *d
 	dds.dataObjectNumber++
 	newSk = sk.clone(dds.dataObjectNumber)
 	dds.data.store(destKeyName, newSk)
+	dds.listArrivedUnlocked(destKeyName, newSk)
 	return
+}
+
+// listArrivedUnlocked wakes clients blocked on keyName when a whole list
+// has just appeared under that name (RENAME, COPY, SORT ... STORE): one
+// waiter per element, as for a push.
+func (ds *dataStore) listArrivedUnlocked(keyName string, sk *storeKey) {
+	if list := sk.getList(); list != nil && list.count > 0 {
+		ds.unblockListUnlocked(keyName, list.count)
+	}
 }
 
 // moves a store key, optionally into a different data store
@@ -133,6 +143,7 @@ func (ds *dataStore) moveStoreKeyUnlocked(srcKeyName, destKeyName string, dds *d
 	dds.dataObjectNumber++
 	sk.id = dds.dataObjectNumber
 	dds.data.store(destKeyName, sk)
+	dds.listArrivedUnlocked(destKeyName, sk)
 
 	newSk = sk
 	return
